@@ -66,10 +66,11 @@ Definition process_alive (e : conn_end) : bool :=
 Definition goroutines : list (N * N * bool * bool) :=
   [ (24, 91, true, true)      (* vnc.go: go c.serve() *)
   ; (24, 103, false, false)   (* vnc.go: frame feeder (channel ops only) *)
-  ; (24, 481, true, true)     (* rfb.go: go c.pushFramesLoop() -> pushImage -> failf; recovers (4aa01bd) *)
-  ; (10, 120, false, false)   (* ftp.go: event pump over s.recv *)
-  ; (10, 178, false, false)   (* ftp/socket.go: passive accept *)
-  ; (18, 126, false, false)   (* smtp.go: event pump *)
+  ; (24, 496, true, true)     (* rfb.go: go c.pushFramesLoop() -> pushImage -> failf; recovers (4aa01bd) *)
+  ; (10, 133, false, false)   (* ftp.go: event pump over the connection's command channel *)
+  ; (10, 199, false, false)   (* ftp/socket.go: passive accept; its only shared-state operation is
+                                 wg.Done, modelled below (psv_goroutine) *)
+  ; (18, 142, false, false)   (* smtp.go: event pump *)
   ; (21, 195, false, false)   (* ssh-simulator: ssh.DiscardRequests (library) *)
   ; (20, 112, false, false)   (* ssh-auth: ssh.DiscardRequests (library) *)
   ]%N.
@@ -84,6 +85,35 @@ Definition goroutine_recovers (svc line : N) : bool :=
 (* a panic inside a goroutine the service started: confined iff that goroutine recovers *)
 Definition spawned_panic (svc line site : N) : res :=
   if goroutine_recovers svc line then ROk else RFatal site.
+
+(* ftp passive data socket (ftp/socket.go GoListenAndServe): wg.Add(1), then a goroutine
+   outside every recover: defer listener.Close(); defer wg.Done(); Accept; on error record
+   it and return.  sync.WaitGroup panics ("negative WaitGroup counter") when Done brings the
+   counter below zero - in that goroutine, i.e. process-fatal.  The Accept fails when nobody
+   connects within 30 s, or when the listener is closed because the socket is replaced
+   (PASV/EPSV/PORT/EPRT), the session ends (QUIT, client gone) or Handle panicked. *)
+Inductive wgop := WDone | WOther.
+
+Definition F_FTP_WG := 8%N.
+
+(* the goroutine's operations for either outcome of Accept; the deferred calls run last *)
+Definition psv_goroutine (accept_fails : bool) : list wgop :=
+  (if accept_fails then [WOther] (* socket.err = err *) else [WOther; WOther; WOther]) ++
+  [WDone] (* deferred wg.Done *) ++ [WOther] (* deferred listener.Close *).
+
+Fixpoint wg_run (counter : Z) (ops : list wgop) : option Z :=   (* None = the panic *)
+  match ops with
+  | [] => Some counter
+  | WOther :: r => wg_run counter r
+  | WDone :: r => if counter - 1 <? 0 then None else wg_run (counter - 1) r
+  end.
+
+(* one passive socket from creation (Add(1)) to the end of its goroutine *)
+Definition psv_socket (accept_fails : bool) : res :=
+  match wg_run 1 (psv_goroutine accept_fails) with
+  | Some _ => ROk
+  | None => RFatal F_FTP_WG
+  end.
 
 (* ------------------------------------------------------------------ *)
 (* 2. ssh-simulator: payloadDecoder.String and the env / exec loops     *)
@@ -321,9 +351,9 @@ Definition vnc_verdict (stream : bytes) : N :=
   end%N.
 
 (* what the connection amounts to: a failf in the pusher goroutine is a panic in a
-   goroutine the service started (rfb.go:481) *)
+   goroutine the service started (rfb.go:496) *)
 Definition vnc_handle (stream : bytes) : res :=
-  if (vnc_verdict stream =? 0)%N then ROk else spawned_panic 24 481 F_VNC_PUSHER.
+  if (vnc_verdict stream =? 0)%N then ROk else spawned_panic 24 496 F_VNC_PUSHER.
 
 (* ------------------------------------------------------------------ *)
 (* 5. counterstrike and adb: slicing of the received packet             *)
